@@ -175,7 +175,7 @@ def mgrReset (S : SimIface σ α ω ι) : MKind → MState σ → Except Err (Li
     let ds := S.nonLearners
     let s := S.reset m.sim
     let r := readObs S s (S.agents.filter (fun a => decide (a ∉ ds)))
-    .ok (r.1, { m with sim := r.2, doneSet := ds })
+    .ok (r.1, { m with sim := r.2, doneSet := ds, ptr := 0 })   -- (no turn pointer: model field inert)
   | .turnBased, m =>
     let ds := S.nonLearners
     let s := S.reset m.sim
@@ -187,7 +187,7 @@ def mgrReset (S : SimIface σ α ω ι) : MKind → MState σ → Except Err (Li
   | .dynamic, m =>
     let s := S.reset m.sim
     let r := readObs S s (S.next s)
-    .ok (r.1, { m with sim := r.2, doneSet := [] })
+    .ok (r.1, { m with sim := r.2, doneSet := [], ptr := 0 })
 
 def mgrStep (S : SimIface σ α ω ι) (k : MKind) (m : MState σ) (acts : List (Aid × α)) :
     Except Err (Out ω ι × List (Aid × α) × MState σ) :=
